@@ -2,8 +2,8 @@
    Proved: every field of the parameter block that the metadata query reports is decoded to the
    value the writer stored, for all ten element types and every bound mode the block can carry.
    The header walk of SZ_getMetadata (offsets of the size field per element type and stream kind) is
-   modelled in Model/Header.v (get_metadata / header_bytes) and compared with the implementation on
-   every run; its offsets theorem is not yet proved (stated in DESIGN.md §9). *)
+   modelled in Model/Header.v (get_metadata / header_bytes), proved below for every well-formed header
+   (C06_header_walk) and compared with the implementation on every run. *)
 From Coq Require Import ZArith List Bool.
 Import ListNotations.
 Require Import SZV.Base.Bytes SZV.Gen.SrcConsts SZV.Model.Header SZV.Proofs.Header_proofs.
@@ -18,6 +18,21 @@ Theorem C06_params_length : forall p, modes_ok (ebMode p) = true ->
 Proof. exact params_length. Qed.
 Print Assumptions C06_params_length.
 
+(* the header walk: on the prefix the serialisers write -- version, flag byte, parameter block in its 28- or 36-byte
+   field, exact-byte-size byte of regular integer streams, element count in 4 or 8 bytes -- followed by anything,
+   SZ_getMetadata reports the constant and lossless flags, the size type, the element count and every parameter it
+   shows exactly as written, for all ten element types and all stream kinds *)
+Theorem C06_header_walk : forall h rest, header_ok h = true ->
+  let m := get_metadata (header_bytes h ++ rest) in
+  let p := h_params h in
+  m_const m = h_const h /\ m_lossless m = h_lossless h /\ m_sizeType m = (if h_size8 h =? 1 then 8 else 4) /\ m_length m = h_length h /\
+  v_dataType (m_view m) = dataType p /\ v_ebMode (m_view m) = ebMode p /\ v_szMode (m_view m) = pb_szMode p /\
+  v_b6 (m_view m) = v_b6 (view_of p) /\ v_b10 (m_view m) = v_b10 (view_of p) /\ v_intervals (m_view m) = v_intervals (view_of p) /\
+  v_optQuantMode (m_view m) = pb_optQuantMode p /\ v_sampleDistance (m_view m) = pb_sampleDistance p /\ v_predThr (m_view m) = predThr p /\
+  v_sol (m_view m) = solID p.
+Proof. exact get_metadata_header. Qed.
+Print Assumptions C06_header_walk.
+
 Definition ex_block : pblock :=
   {| pb_optQuantMode := 1; dataEnd := 0; sysEnd := 0; pb_szMode := 1; pb_gzipMode := 3; pb_sampleDistance := 100; predThr := 9900; ebMode := 0; dataType := 9;
      absF := 0x3a83126f; relF := 0; psnrF := 0; pwrF := 0; solID := 101; maxQ := 65536; quantI := 0; fminB := 0; fmaxB := 0;
@@ -26,3 +41,6 @@ Definition ex_block : pblock :=
 Example C06_ex : pblock_ok ex_block = true /\ v_dataType (decode_params (force (encode_params ex_block))) = 9
   /\ v_b6 (decode_params (force (encode_params ex_block))) = 0x3a83126f.
 Proof. repeat split; vm_compute; reflexivity. Qed.
+Example C06_ex_walk : header_ok {| h_const := 0; h_lossless := 0; h_size8 := 1; h_other := 0; h_params := ex_block; h_exactByteSize := 2; h_length := 4099 |} = true
+  /\ m_length (get_metadata (header_bytes {| h_const := 0; h_lossless := 0; h_size8 := 1; h_other := 0; h_params := ex_block; h_exactByteSize := 2; h_length := 4099 |} ++ [7; 7; 7])) = 4099.
+Proof. split; vm_compute; reflexivity. Qed.
